@@ -21,6 +21,11 @@ Definition lru_lin_complete (bud cap : N) (h : list (@orec op res)) : option boo
 Definition lru_cert (cap : N) (h : list (@orec op res)) (p : list nat) : bool :=
   cert_ok rspec op res r_step res_eqb (r_new cap) h p.
 
+(* the same for a history with pending calls: which of them are completed and with which result *)
+Definition lru_pcert (cap : N) (h : list (@orec op res)) (pend : list (pcall op)) (inf : N)
+           (chosen : list (nat * res)) (p : list nat) : bool :=
+  pcert_ok rspec op res r_step res_eqb (r_new cap) h pend inf chosen p.
+
 (* lock modes as read from the Go source *)
 Definition lru_mode (o : op) : lockmode := mode_of lru_locks o.
 (* evaluated here so that the extracted code does not drag Coq strings along *)
